@@ -619,6 +619,20 @@ class Gen:
                 return None
             op['items'] = [it]
             op['i'] = pick_index(rng, n)
+        elif kind == 'setslice' and n >= 2 and dom == 'node' and rng.random() < 0.3 and m.kind in ('raw_repeated', 'raw_repeated_comments'):
+            # same length, same element types, other order: view index tables must follow the positions
+            a = rng.randrange(n - 1)
+            b = min(n, a + rng.choice([2, 2, 3]))
+            cur_types = [type(x) for x in list(w)[a:b]]
+            rng.shuffle(cur_types)
+            items = []
+            for t in cur_types:
+                d = gen_donor(self.s, rng, (t,), safe=self.safe, indent=self.child_indent(owner, m), allow_pool=False)
+                if d is None:
+                    return None
+                items.append({'node': d})
+            op['items'] = items
+            op['sl'] = [a, b, None]
         elif kind == 'setslice':
             sl = pick_slice(rng, n)
             cnt = len(range(n)[slice(*sl)])
